@@ -552,8 +552,9 @@ class FunctionLocation(Location):
     def id(self):
         """The location id."""
         if self.__function_name is None:
-            # not discovered yet: two such tracepoints in one file are different locations
-            return "%s#%s" % (self.path, self.__tracepoint_line)
+            # not discovered yet: two such tracepoints in one file are different locations, and neither is the
+            # location of a line tracepoint on that line (whose id is <path>#<line>)
+            return "%s#method@%s" % (self.path, self.__tracepoint_line)
         return "%s#%s" % (self.path, self.__function_name)
 
     @property
